@@ -73,8 +73,9 @@ def observe(model):
             "bnm": getattr(model.basis, "n_basis_modes", None), "snm": model.n_basis_modes}
 
 
-def run_real(h: History):
-    """Executes the history on a real SSPOR. Returns (model or None, list of (status, obs))."""
+def run_real(h: History, probe=None):
+    """Executes the history on a real SSPOR. Returns (model or None, list of (status, obs)).
+    probe(model, op_index) is called after every op (used to interleave read-only calls such as predict)."""
     from pysensors.reconstruction import SSPOR
     try:
         model = SSPOR(basis=models.make_basis(h.basis, h.n_modes), optimizer=make_optimizer(h.opt), n_sensors=h.ctor_ns)
@@ -96,6 +97,8 @@ def run_real(h: History):
         except Exception as e:
             status = "E:" + err_kind(e)
         out.append((status, observe(model)))
+        if probe is not None:
+            probe(model, len(out) - 1)
     return model, out
 
 
